@@ -17,3 +17,40 @@ package share
 //@   property C01
 //@   trusted
 //@   ensures err == nil ==> result == extendedOf(original) && len(result) == 2*len(original)
+
+// ---------------------------------------------------------------------------------------------
+// C02: which rows can contain a namespace is decided locally from the trusted row roots: row r is
+// *outside* iff the namespace is below the row's minimum or above its maximum namespace (the first
+// and second 29 bytes of the row root).
+
+//@ pure func nsOfBytes(b []byte) libshare.Namespace
+//@ pure func nsLt(a libshare.Namespace, b libshare.Namespace) bool
+//@ pure func nsLe(a libshare.Namespace, b libshare.Namespace) bool
+//@ extern github.com/celestiaorg/go-square/v4/share.NewNamespaceFromBytes
+//@   ensures err == nil ==> result0 == nsOfBytes(bytes)
+//@ extern (github.com/celestiaorg/go-square/v4/share.Namespace).IsLessThan
+//@   ensures result <==> nsLt(n, n2)
+//@ extern (github.com/celestiaorg/go-square/v4/share.Namespace).IsLessOrEqualThan
+//@   ensures result <==> nsLe(n, n2)
+
+//@ pure func outsideOf(ns libshare.Namespace, rowRoot []byte) bool = nsLt(ns, nsOfBytes(rowRoot[0:29])) || !nsLe(ns, nsOfBytes(rowRoot[29:58]))
+
+//@ func IsOutsideRange
+//@   property C02
+//@   nopanic
+//@   ensures err == nil ==> len(leftHash) >= 29 && len(rightHash) >= 58
+//@   ensures err == nil ==> (result0 <==> (nsLt(namespace, nsOfBytes(leftHash[0:29])) || !nsLe(namespace, nsOfBytes(rightHash[29:58]))))
+
+// The rows that can contain the namespace: exactly the rows that are not outside, in increasing order.
+//@ func RowsWithNamespace
+//@   property C02
+//@   requires root != nil
+//@   ensures err == nil ==> forall k int :: 0 <= k && k < len(idxs) ==> 0 <= idxs[k] && idxs[k] < len(root.RowRoots) && !outsideOf(namespace, root.RowRoots[idxs[k]])
+//@   ensures err == nil ==> forall k int, l int :: 0 <= k && k < l && l < len(idxs) ==> idxs[k] < idxs[l]
+//@   ensures err == nil ==> forall r int :: 0 <= r && r < len(root.RowRoots) && !outsideOf(namespace, root.RowRoots[r]) ==> (exists k int :: 0 <= k && k < len(idxs) && idxs[k] == r)
+//@   loop 1: invariant -1 <= rangeindex && rangeindex < len(root.RowRoots)
+//@   loop 1: hint len(idxs) >= len(head(idxs)) && forall k int :: 0 <= k && k < len(head(idxs)) ==> idxs[k] == head(idxs[k])
+//@   loop 1: hint len(idxs) == len(head(idxs)) || (len(idxs) == len(head(idxs)) + 1 && idxs[len(idxs)-1] == rangeindex)
+//@   loop 1: invariant forall k int :: 0 <= k && k < len(idxs) ==> 0 <= idxs[k] && idxs[k] <= rangeindex && !outsideOf(namespace, root.RowRoots[idxs[k]])
+//@   loop 1: invariant forall k int, l int :: 0 <= k && k < l && l < len(idxs) ==> idxs[k] < idxs[l]
+//@   loop 1: invariant forall r int :: 0 <= r && r <= rangeindex && !outsideOf(namespace, root.RowRoots[r]) ==> (exists k int :: 0 <= k && k < len(idxs) && idxs[k] == r)
